@@ -70,5 +70,95 @@ prop(
     assumptions=CONTENT_ASSUME,
 )
 
+prop(
+    "C11",
+    lean_modules=["BloomVerif.Lemmas.Build", "BloomVerif.Props.C02", "BloomVerif.Props.C11"],
+    technique="Lean 4 proof over any valid grouping (rows preserved as a list, coverage preserved, query equality / superset via C02 and minmax monotonicity) + differential checks of real merges",
+    design_ref="DESIGN.md section 4 C11",
+    text="Machine-checked theorems, for any grouping of the source blocks into non-empty groups sharing partition ID and minmax key set (so independent of the greedy order): the stored row list is unchanged; every row stays in a "
+         "block with its partition ID whose ranges cover it; a query without prefilter returns exactly the matching rows of the unchanged row list; a prefiltered query keeps every row of its pre-merge answer and returns only matching rows. "
+         "Real merges of random populations are compared before/after (multiset, coverage, 12 queries each) and their observed grouping is checked to be a valid grouping.",
+    trusted_base=CONTENT_TB,
+    assumptions=CONTENT_ASSUME + ["stored minmax ranges are int64 and ordered (true of every range the engine builds)"],
+)
+
+prop(
+    "C12",
+    lean_modules=["BloomVerif.Lemmas.MergePlan", "BloomVerif.Props.C12"],
+    technique="Lean 4 proof (loop invariants over the greedy block grouping and file grouping folds) + regenerated blocksWithinMergeLimits + exact differential comparison of groupings",
+    design_ref="DESIGN.md section 4 C12",
+    text="Machine-checked invariants of the greedy folds for every block/file population and limit setting: a combined block stays within MaxRowGroupRows/MaxRowGroupBytes (cumulative, not only pairwise) and has one merge key; "
+         "groups partition the blocks; one merge groups at most MaxFilesToMergePerOperation files, each group has >= 2 files and totals at most MaxFileSize (metadata on-disk sizes). "
+         "identifyFileMergeGroups is compared exactly with the model on metadata-only populations (candidate order is an input: the Go sort is unstable), and the block grouping observed in real merges is compared with the model whenever the order is determined.",
+    trusted_base=[KERNEL, AXIOMS, TGEN, TDIFF, HOOKS, "modelled, not verified: sort.Slice (order taken as input and re-derived only when no two candidates tie); Go map iteration over partitions (groups compared as sets)"],
+    assumptions=["size = the sum of the source blocks' on-disk sizes recorded in metadata (DESIGN.md section 3)", "row counts and sizes do not overflow int64 when summed"],
+)
+
+FORMAT_TB = [KERNEL, AXIOMS, TGEN + " (FileMetadata.validate and validateFilterSection are re-translated with Go's wrapping int64 arithmetic)", TDIFF, HOOKS,
+             "modelled, not verified: encoding/json of the metadata payload, snappy/zstd, CRC32C (assumed to detect the corruptions it is asked to detect), bits-and-blooms WriteTo/ReadFrom; "
+             "planBlockFilterReads, heldSection and readChunkFrom are hand-modelled and tied by differential testing (not by the translator)"]
+
+prop(
+    "C17",
+    lean_modules=["BloomVerif.Lemmas.Format", "BloomVerif.Props.C17"],
+    technique="Lean 4 proof (row-section encode/scan inverse both ways, layout prefix sums, written layout passes the regenerated validation) + read-back comparison of every written file",
+    design_ref="DESIGN.md section 4 C17",
+    text="Machine-checked: scanning a written row section returns exactly the rows and determines the section; block offsets are the prefix sums from 0 and the filter region follows with sections in block order; such a layout passes the "
+         "validation function regenerated from the Go source. Every file random histories produce (flush and merge, all compressions) is parsed with ReadFileMetadata and compared with the metastore copy, the Lean layout, and with row count, "
+         "uncompressed size, CRC32C, compression and distinct entry counts recomputed from its row data using the Lean entries.",
+    trusted_base=FORMAT_TB,
+    assumptions=["rows are shorter than 2^32 bytes (the engine rejects longer ones)", "blocks an external writer produced (also when copied verbatim by a merge) carry that writer's metadata and are outside this property"],
+)
+
+prop(
+    "C18",
+    lean_modules=["BloomVerif.Lemmas.Build", "BloomVerif.Props.C18"],
+    technique="Lean 4 proof (flush and merge establish index coverage at block and file level; minmax key set exact) + probing every model entry in the filters read back from disk",
+    design_ref="DESIGN.md section 4 C18",
+    text="Machine-checked: blocks and files built by flush, and merged and copied blocks of any valid merge grouping, are index-covered (filters contain every field path, token and field::token pair of every row; file filters contain every "
+         "block's entries; minmax ranges cover every indexed value and list exactly the provided keys; partition ID is each row's). For every written file of random histories, every entry the Lean model derives for every row is probed "
+         "in the block and file filters read back from disk, and ranges/keys/partition IDs are compared with the model.",
+    trusted_base=CONTENT_TB,
+    assumptions=CONTENT_ASSUME,
+)
+
+prop(
+    "C19",
+    lean_modules=["BloomVerif.Lemmas.Format", "BloomVerif.Props.C19"],
+    technique="Lean 4 proof over all int64 framing values (regenerated wrapping validation = exact model, acceptance implies in-bounds, chunk and slice bounds, scanner bounds) + differential validators + mutation fuzz",
+    design_ref="DESIGN.md section 4 C19",
+    text="Machine-checked for every int64 value of the framing fields: the validation regenerated from the Go source never overflows and equals the exact-arithmetic model; accepted metadata keeps the region, every row-data extent and "
+         "every filter section inside the data area; a chunk read starts at its section, covers it, stays in the region and is bounded by the chunk target; a held section is sliced inside the buffer; the row scanner never over-reads. "
+         "Partial: 'never a wrong row' rests on CRC32C; supporting evidence is a fuzz of byte-level mutants and CRC-consistent re-footers of engine-written files under recover with an allocation meter, and queries over mutants.",
+    trusted_base=FORMAT_TB,
+    assumptions=["UncompressedSize is not a framing field (an arbitrary value bounds an allocation by itself only; observation in DESIGN.md)", "mutants are taken of engine-written files (the property's quantifier)"],
+)
+
+prop(
+    "C25",
+    lean_modules=["BloomVerif.Lemmas.Content", "BloomVerif.Lemmas.ExprJson", "BloomVerif.Props.C25"],
+    technique="Lean 4 proof (And/Or flattening, builder fold, JSON decode∘encode = id for all trees of the three kinds) + differential comparison of constructors, builder, json.Marshal and json.Unmarshal with the model",
+    design_ref="DESIGN.md section 4 C25",
+    text="Machine-checked for all trees including empty, nil-condition and unknown nodes: And/Or (with flattening) evaluate to the conjunction/disjunction of their arguments; every builder call sequence evaluates as the fold "
+         "'simple calls conjoin, Match assigns'; the engine's regex compile step preserves the meaning of constructor-built trees; decoding the JSON encoding returns the original tree for bloom, regex and prefilter expressions. "
+         "Go's constructors, builder, json.Marshal and json.Unmarshal are compared with the model on random trees and call sequences, and round-tripped queries must return identical results.",
+    trusted_base=[KERNEL, AXIOMS, TDIFF, HOOKS, "modelled, not verified: encoding/json's reflection rules (struct tags, omitempty) are hand-modelled; the tie is the exact comparison of json.Marshal output and json.Unmarshal results with the model on every case"],
+    assumptions=["expression strings are valid UTF-8 (the excluded point is the recorded finding invalid-utf8-expression-string)",
+                 "builder reading: Field/Token/FieldToken/FieldRegex conjoin onto the current expression, Match/MatchRegex/MatchPrefilter assign it (DESIGN.md section 3)"],
+)
+
+prop(
+    "C26",
+    level="other",
+    lean_modules=["BloomVerif.Props.C26"],
+    technique="Lean 4 theorems on the sizing discipline (filters built from exactly the covered rows' distinct entries) + exact (m,k) comparison of every written filter + measured false-positive rates",
+    design_ref="DESIGN.md section 4 C26",
+    text="Partial by nature: the rate is a statement about hashing statistics, which no model of this code decides. What is decided: (1) theorems that every block/file/merge-output filter is built from exactly the distinct entries of "
+         "the rows it covers; (2) for every filter written in random histories and in single-block volumes up to 5,000 (thorough: 120,000) entries, (m,k) read from disk equals EstimateParameters(max(|S|,1), p) with |S| computed by the Lean "
+         "entries; (3) measured false-positive rates on 20,000 absent probes per filter, judged only for n >= 100 (tiny filters are dominated by discretisation) and reported for all.",
+    trusted_base=[KERNEL, AXIOMS, TDIFF, HOOKS, "bits-and-blooms EstimateParameters / hashing (the statistical claim rests on it)"],
+    assumptions=["statistical tolerance: measured rate <= 1.6 p + 6 sigma + 0.002 for n >= 100"],
+)
+
 # Properties not claimed, with the reason (kept current; see DESIGN.md).
 NOT_CLAIMED = {}
